@@ -69,6 +69,16 @@ Scaled(X, c) == Mat(Rows(X), Cols(X), LAMBDA i, j : Mul(X[i][j], c))
 ScaleLaw == LET k == IntM(K)  sa == IntM(Sa)  sy == IntM(Sy)  c == Frac(1, 4)
             IN /\ Post(k, Scaled(sa, c), Scaled(sy, c)) = Scaled(Post(k, sa, sy), c)
                /\ GainN(k, Scaled(sa, c), Scaled(sy, c)) = GainN(k, sa, sy)
+\* block law: independent sub-problems side by side (block-diagonal K, Sa, Sy) have block-diagonal S, G and A made of the
+\* sub-problems' own matrices.  The harness composes up to 14 printed cases into problems with m up to 40 measurements and
+\* runs HISTORIES of such problems that agree in their outer blocks and differ in the middle ones.
+BD(A, B) == Mat(Rows(A) + Rows(B), Cols(A) + Cols(B),
+                LAMBDA i, j : IF i <= Rows(A) /\ j <= Cols(A) THEN A[i][j]
+                              ELSE IF i > Rows(A) /\ j > Cols(A) THEN B[i - Rows(A)][j - Cols(A)] ELSE R(0))
+BlockLaw == LET k == IntM(K)  sa == IntM(Sa)  sy == IntM(Sy)
+                k2 == <<<<R(2)>>>>  sa2 == <<<<R(4)>>>>  sy2 == <<<<R(1)>>>>
+            IN /\ Post(BD(k, k2), BD(sa, sa2), BD(sy, sy2)) = BD(Post(k, sa, sy), Post(k2, sa2, sy2))
+               /\ GainN(BD(k2, k), BD(sa2, sa), BD(sy2, sy)) = BD(GainN(k2, sa2, sy2), GainN(k, sa, sy))
 \* a family with an unobserved state direction and measurement noise c (closed forms, checked for rational c):
 \*   K = (1 0), Sa = I, Sy = (c):   S = diag(c/(1+c), 1),  G = (1/(1+c), 0)^T,  A = diag(1/(1+c), 0)
 LimitFamily == \A c \in {R(1), Frac(1, 2), Frac(1, 100)} :
